@@ -43,6 +43,8 @@ def unit_props():
                 mm = re.search(r'props=([A-Z0-9,]+)', s)
                 if s.startswith('//@') and mm:
                     props.update(mm.group(1).split(','))
+                if s.startswith('//@ sharedprops') and '=' in s:
+                    props.update(x.strip() for x in s.split('=', 1)[1].split(',') if re.match(r'^C\d\d$', x.strip()))
         out[unit] = props
     return out
 
@@ -394,7 +396,7 @@ def run_vacuity(unit):
 
 GLOBAL_ASSUMPTIONS = [
     'N3: async fn/.await are erased; a handler runs to completion on its &mut self state, task interleaving at await points is not modelled',
-    'N25: tokio::select! (PeerHandler::event_loop) is abstracted to a nondeterministic choice of one branch per iteration whose future runs to completion; which branch is ready first (time) and the cancellation of the other futures are not modelled; Session::event_loop is not under contract',
+    'N25: tokio::select! (PeerHandler::event_loop, Session::event_loop) is abstracted to a nondeterministic choice of one branch per iteration whose future runs to completion; which branch is ready first (time) and the cancellation of the other futures are not modelled; RELY of Session::event_loop (external_body axioms, listed in trusted_base): a command taken from the channel of the tasks comes from a task that has a record and carries what the task validated; the peer table has fewer than 2^31 records; TcpListener::bind succeeds; timeout_change_conn_state behaves as the proved rotation it calls (bounded native stand-in)',
     'machine integers are exact in Verus (overflow, index and cast range are obligations); usize is 64 bit (global size_of usize == 8)',
     'termination is proved only where a decreases clause is listed; recursion depth / stack size not modelled',
     'the Rust compiler, std, tokio, bytes, sha1_smol behave as their shim specifications in units/lib/*.vxt say (see trusted_base)',
